@@ -571,18 +571,6 @@ Proof.
   set (dotpart := (if dot then "." :: fp else []) ++ tailx).
   assert (Hhead : match dotpart with [] => True | c :: _ => is_digit c = false end).
   { unfold dotpart. destruct dot; [reflexivity|exact EH]. }
-  assert (Body : forall pre, parse_declit (pre ++ ip ++ dotpart) =
-                 (let (sg0, r) := match pre ++ ip ++ dotpart with c :: r => if c =c? "-" then (["-"], r) else ([], pre ++ ip ++ dotpart) | [] => ([], pre ++ ip ++ dotpart) end in
-                  let (ip0, r1) := span_digits r in
-                  let '(dot0, fp0, r2) := match r1 with
-                        | c :: r' => if c =c? "." then let (f, r'') := span_digits r' in (true, f, r'') else (false, [], r1)
-                        | [] => (false, [], r1) end in
-                  match ip0 ++ fp0 with
-                  | [] => None
-                  | _ => match parse_expo r2 with
-                         | Some e => Some {| dl_sign := sg0; dl_int := ip0; dl_dot := dot0; dl_frac := fp0; dl_exp := e |}
-                         | None => None end
-                  end)) by reflexivity.
   assert (Core : forall sg0,
      (let (ip0, r1) := span_digits (ip ++ dotpart) in
       let '(dot0, fp0, r2) := match r1 with
@@ -606,7 +594,7 @@ Proof.
           destruct He as (Hm & _). cbn [ex_mark] in Hm. destruct Hm as [E|[E|[_ E]]]; subst m; reflexivity. }
         rewrite Ec. rewrite app_nil_r in *. destruct ip; [congruence|]. cbn [app]. rewrite PE. reflexivity. }
   replace (sg ++ ip ++ (if dot then "." :: fp else []) ++ tailx) with (sg ++ ip ++ dotpart) by reflexivity.
-  rewrite Body.
+  unfold parse_declit.
   destruct Hs as [Es|Es]; subst sg; cbn [app].
   - assert (Hfirst : match ip ++ dotpart with c :: _ => (c =c? "-") = false | [] => True end).
     { destruct ip as [|c ip']; cbn [app].
@@ -615,7 +603,7 @@ Proof.
     destruct (ip ++ dotpart) as [|c r] eqn:E.
     + exfalso. apply app_eq_nil in E. destruct E as [E1 E2]. subst ip. unfold dotpart in E2.
       destruct dot; [discriminate|]. rewrite (Hdot eq_refl) in Hne. cbn in Hne. congruence.
-    + rewrite Hfirst. rewrite <- E. apply Core.
+    + rewrite Hfirst. apply Core.
   - rewrite Ascii.eqb_refl. apply Core.
 Qed.
 
@@ -654,4 +642,14 @@ Theorem parse_render_float st pi d :
   wf d -> d_legacy d = false -> d_ctype d = TFloat -> parse (render st pi d) = Poly (denote d).
 Proof.
   intros Hwf Hleg Hct. destruct (float_readable d Hct). apply parse_render_3x; auto.
+Qed.
+
+(* every 3.x description: monomial, secular, Chebyshev; Integer, Rational, FloatingPoint; dense, sparse *)
+Theorem parse_render_all_3x st pi d :
+  wf d -> d_legacy d = false -> parse (render st pi d) = Poly (denote d).
+Proof.
+  intros Hwf Hleg. destruct (d_ctype d) eqn:Ect.
+  - apply parse_render_exact; auto. left; exact Ect.
+  - apply parse_render_exact; auto. right; exact Ect.
+  - apply parse_render_float; auto.
 Qed.
